@@ -571,7 +571,8 @@ def transpose(t):
 
 
 def _norm_dims(t, dim):
-    if dim is None:
+    if dim is None or (isinstance(dim, (tuple, list)) and len(dim) == 0):
+        # torch: an empty tuple of dims reduces over all dimensions (sum / mean)
         return tuple(range(t.ndim))
     if isinstance(dim, int):
         dim = (dim,)
@@ -721,9 +722,46 @@ def _find_kfree_ite(e, k):
     return None
 
 
+def _indicator(c):
+    """real-valued 0/1 indicator of a boolean condition, canonical: I(not d) = 1 - I(d)"""
+    c = z3.simplify(c)
+    if z3.is_true(c):
+        return z3.RealVal(1)
+    if z3.is_false(c):
+        return z3.RealVal(0)
+    if z3.is_not(c):
+        return 1 - _indicator(c.arg(0))
+    return z3.If(c, z3.RealVal(1), z3.RealVal(0))
+
+
+def _is_indicator(e):
+    return (z3.is_app(e) and e.decl().kind() == z3.Z3_OP_ITE and z3.is_rational_value(e.arg(1)) and
+            z3.is_rational_value(e.arg(2)) and e.arg(1).numerator_as_long() == 1 and e.arg(1).denominator_as_long() == 1
+            and e.arg(2).numerator_as_long() == 0)
+
+
+def _hoist_ifs(e, k):
+    """If(c, a, b) with a condition depending on k  ->  I(c) * a + (1 - I(c)) * b   (I(c) the 0/1 indicator), so that
+    masked expressions written in different but equivalent ways meet in one polynomial normal form"""
+    if not z3.is_app(e) or e.num_args() == 0:
+        return e
+    if e.decl().kind() == z3.Z3_OP_UNINTERPRETED:
+        return e        # do not look inside uninterpreted applications (nested sums, inputs)
+    ch = [_hoist_ifs(c, k) for c in e.children()]
+    if e.decl().kind() == z3.Z3_OP_ITE and z3.is_real(e) and _depends(e.arg(0), k):
+        ind = _indicator(e.arg(0))
+        a, b = ch[1], ch[2]
+        if _is_indicator(e) and z3.is_app(ind) and ind.decl().kind() == z3.Z3_OP_ITE:
+            return ind
+        return ind * a + (1 - ind) * b
+    if all(x.eq(y) for x, y in zip(ch, e.children())):
+        return e
+    return e.decl()(*ch)
+
+
 def _monomials(body, k):
     """polynomial normal form of body: list of (coefficient free of k, product of the k-dependent factors or None)"""
-    b = z3.simplify(_rewrite_divisions(body, k), som=True, mul_to_power=False, hoist_mul=False)
+    b = z3.simplify(_rewrite_divisions(_hoist_ifs(z3.simplify(body), k), k), som=True, som_blowup=100000, mul_to_power=False, hoist_mul=False)
     terms = b.children() if (z3.is_app(b) and b.decl().kind() == z3.Z3_OP_ADD) else [b]
     out = []
     work = list(terms)
@@ -753,6 +791,15 @@ def _monomials(body, k):
                 stack_f = [fct.arg(0), z3.RealVal(1) / fct.arg(1)] + stack_f
             else:
                 flat.append(fct)
+        # indicators are idempotent: I(c) * I(c) = I(c)
+        dedup, seen_ind = [], set()
+        for fct in flat:
+            if _is_indicator(fct):
+                if fct.get_id() in seen_ind:
+                    continue
+                seen_ind.add(fct.get_id())
+            dedup.append(fct)
+        flat = dedup
         coef, dep = [], []
         for fct in flat:
             if z3.is_app(fct) and fct.decl().kind() == z3.Z3_OP_UMINUS:
@@ -844,11 +891,13 @@ def reduce_sum(it, t: STensor, dim=None, keepdim=False):
     cx = it.cx
     out_shape = tuple((1 if k in dims else d) for k, d in enumerate(t.shape_)) if keepdim else \
         tuple(d for k, d in enumerate(t.shape_) if k not in dims)
-    as_int = t.dtype in ("bool", "int")
+    # counts (sums of booleans) are represented as real-valued sums of 0/1 indicators, in the same normal form as
+    # every other sum (torch returns an int64 tensor; its value is what matters here and `.float()` is the identity)
+    as_int = t.dtype == "int"
 
     def elem(idx_full):
         if t.dtype == "bool":
-            return z3.If(t.fn(idx_full), z3.IntVal(1), z3.IntVal(0))
+            return z3.If(t.fn(idx_full), z3.RealVal(1), z3.RealVal(0))
         return t.fn(idx_full)
 
     def fn(out_idx):
@@ -877,6 +926,8 @@ def reduce_quant(it, t: STensor, dim, is_all, keepdim=False):
     dims = _norm_dims(t, dim)
     out_shape = tuple(d for k, d in enumerate(t.shape_) if k not in dims)
     cx = it.cx
+    if not dims:
+        return STensor(t.shape_, t.fn, "bool")      # nothing to reduce (0-d tensor)
 
     def fn(out_idx):
         ks = {d: z3.Int(cx.fresh_name("q")) for d in dims}
@@ -1284,6 +1335,11 @@ def m_cat(it, tensors, dim=0, axis=None):
     return STensor(shape, fn, "real" if anyreal else ts[0].dtype)
 
 
+@model(torch.t)
+def m_t(it, t):
+    return transpose(as_tensor(it, t))
+
+
 @model(torch.sign)
 def m_sign(it, t):
     t = as_tensor(it, t)
@@ -1305,6 +1361,20 @@ def m_eye(it, n, m=None, **kw):
     d = _sv_shape((n,))[0]
     d2 = _sv_shape((m,))[0] if m is not None else d
     return STensor((d, d2), lambda idx: z3.If(idx[0] == idx[1], z3.RealVal(1), z3.RealVal(0)), "real")
+
+
+@model(torch.std)
+def m_std(it, t, dim=None, unbiased=True, correction=None, keepdim=False, **kw):
+    """torch.std: sqrt( sum (x - mean)^2 / (N - correction) ), correction = 1 unless unbiased=False"""
+    t = as_tensor(it, t).as_num()
+    dims = _norm_dims(t, dim)
+    corr = (1 if unbiased else 0) if correction is None else correction
+    mean = t_mean(it, t, dim, keepdim=True)
+    dev = tensor_binop(it, "sub", t, mean)
+    sq = STensor(dev.shape_, lambda idx: dev.fn(idx) * dev.fn(idx), "real")
+    ssum = reduce_sum(it, sq, dim, keepdim)
+    N = numel_real(t, dims)
+    return STensor(ssum.shape_, lambda idx: F_SQRT(ssum.fn(idx) / (N - corr)), "real")
 
 
 @model(torch.mean)
